@@ -741,6 +741,9 @@ func (p *path) search(toks tokens, verb string) (*method, params, error) {
 	}
 
 	for _, v := range p.variables {
+		if toks[0].typ != tokenSlash {
+			break // a variable stands for path segments, never for a :verb
+		}
 		l := v.index(toks[1:]) + 1 // bump off /
 		if l == 0 {
 			continue
